@@ -426,9 +426,10 @@ class Cluster:
             self.net.meta[(src, dst)].pop(k)
         if not self.insts[dst].alive:
             return 'lost'
+        addr = getattr(self, 'src_addr', {}).get(src, '127.0.0.1')      # the address the sender's connections come from now
         if racing:
-            return self.insts[dst].receive_racing_engine(data)
-        return self.insts[dst].receive(data, settle=settle)
+            return self.insts[dst].receive_racing_engine(data, addr)
+        return self.insts[dst].receive(data, addr, settle=settle)
 
     def crash(self, name):
         """the process is gone: what was on its way to it is lost, connecting to it fails from now on (the sender's
